@@ -8,8 +8,8 @@ CONSTANTS
   KeyOf <- KeyId
   EditTo <- Edits
   InvalidateOnEdit = TRUE
-  IoMode = TRUE
-  Record = FALSE
+  IoMode = FALSE
+  Record = TRUE
   MaxOps = 6
 INVARIANT EmittedSat
 INVARIANT Complete
@@ -17,4 +17,4 @@ INVARIANT Coherent
 INVARIANT EmitOnce
 PROPERTY FirstSightEmits
 CHECK_DEADLOCK FALSE
-CONSTRAINT Bound
+CONSTRAINT EmitHist
